@@ -393,7 +393,7 @@ func init() {
 		Name:  "COST-concat",
 		Doc:   "no string is accumulated by concatenation (x += e, x = x + e on the same local, field or variable) around a loop that is not constant-bounded; a function that accumulates into a field of its receiver/parameter is not called from such a loop",
 		Props: []string{"C20"},
-		Floor: 5,
+		Floor: 3,
 		Run: func(c *Ctx, s *core.Sink) {
 			accFns := map[*ssa.Function]accumulation{}
 			type site struct {
@@ -481,7 +481,7 @@ func init() {
 		Name:  "COST-copy",
 		Doc:   "no conversion copies an open-ended slice (or a loop-invariant whole string) inside a loop whose trip count depends on the input; cursor helpers that cost O(remaining input) are not called from inner loops (in the main loop: SM-onevisit)",
 		Props: []string{"C20"},
-		Floor: 10,
+		Floor: 5,
 		Run: func(c *Ctx, s *core.Sink) {
 			helpers := linearHelpers(c)
 			var hs []*ssa.Function
@@ -624,7 +624,7 @@ func init() {
 		Name:  "COST-nested",
 		Doc:   "inside a loop over a collection field, no call reaches a function that itself loops over the same collection field (work quadratic in the number of elements)",
 		Props: []string{"C20"},
-		Floor: 5,
+		Floor: 3,
 		Run: func(c *Ctx, s *core.Sink) {
 			// fields a function loops over (directly)
 			loopFields := func(f *ssa.Function) map[string]bool {
